@@ -580,6 +580,19 @@ class G:
                     f = self.ch(fields)
                     f.attrs.append(Instr("parent", self.ch([None, "x, y", "[parent(z)] x: Q", "[parent(z)] x", "[parent(0)] x: Q", "[parent([parent(w)] z)] x: Q", "A| x, [map(w)] y", "0, 1"]), tag=("parent", None)))
                     f.ty = self.ch([f.ty, "(i32, u8)", "&'a Base", "[u8; 2]", "Base"])
+            if not prim and fields and self.pr("variant_parent_hint", 0.0):
+                # a #[parent(..)] list on a payload member of a variant whose shape is given by the variant's own
+                # #[type_hint(..)]: the nested fields are written in that shape, whatever the enum-level instruction says
+                f = self.ch(fields)
+                f.attrs = [a for a in f.attrs if a.name != "parent"]
+                ded = (self.ch(cparts) + "| ") if self.pr("dedicated", 0.25) else ""
+                f.attrs.append(Instr("parent", ded + self.ch(["[into(~ + 1)] 0", "[from(x)] 0", "[map(x)] 0", "0", "[into(x)] 0, [map(y, ~.clone())] 1",
+                                                              "x, [map(w)] y", "[owned_into(x)] [ref_into(~.clone())] 0", "[into_existing(x)] 0", "[map(x)] 0, 1"]), tag=("parent", None)))
+                f.ty = "Base"
+                vat = [a for a in vat if a.name != "type_hint"]
+                if self.pr("x", 0.8):
+                    dh = (self.ch(cparts) + "| ") if self.pr("dedicated", 0.25) else ""
+                    vat.append(Instr("type_hint", dh + "as " + self.ch(["{}", "{}", "()"]), tag=("th", None)))
             if not prim and shape != "unit" and self.pr("shape_change", 0.0):
                 vat = [a for a in vat if a.name != "type_hint"]
                 vat.append(Instr("type_hint", "as " + ("{}" if shape == "tuple" else "()"), tag=("th", None)))
@@ -903,7 +916,7 @@ PROFILES = {
     "trait-repeat": {"vars": 0.4, "fallible": 0.3, "attr_params": 0.1, "enum_item": 0.3, "lit": 0.3, "multi_open": 0.12, "twin_names": 0.2},
     "shape-change": {"shape_change": 0.8, "update": 0.3, "shape_bare_ghost": 0.35, "shape_nameless": 0.25, "shape_multi": 0.5, "shape_mixed": 0.5, "shape_forget": 0.3, "multi_cpart": 0.4, "shape_ghost": 0.3, "fallible": 0.3, "max_variants": 3, "variant_map": 0.1, "member_try": 0.1, "multi_instr": 0.5},
     "enum-misuse": {"max_variants": 3, "member_instr": 0.2, "variant_map": 0.2, "type_hint": 0.15, "fallible": 0.3, "multi_cpart": 0.2, "dedicated": 0.3,
-                    "variant_struct_instr": 0.7, "cp_on_enum": 0.3},
+                    "variant_struct_instr": 0.6, "cp_on_enum": 0.3, "variant_parent_hint": 0.35},
     "unknowns": {"unknowns": 1.0, "max_fields": 3, "member_instr": 0.3, "multi_instr": 0.5, "max_variants": 3, "variant_map": 0.2},
     "faults": {"max_fields": 3, "member_instr": 0.4, "multi_cpart": 0.3, "fallible": 0.4, "drop_err": 0.15, "extra_err": 0.1, "ghost_field": 0.2, "ghost_default": 0.5,
                "dedicated": 0.4, "ghosts": 0.3, "stray_child_ghost": 0.4, "ghost_flavour": 0.5, "where_clause": 0.2, "hints": 0.4, "drop_child_parents": 0.3, "drop_cp_entry": 0.2, "type_hint": 0.3,
